@@ -19,7 +19,7 @@ N_PIs == {[lo |-> <<"a">>, v |-> <<"d">>]}
 \* pools for the language configuration (C12l)
 XmlLang == Nm(XmlNsUri, <<"l","a","n","g">>)
 L_ElemNames == {Nm(<<>>, <<"a">>)}
-L_AttrNames == {XmlLang}
+L_AttrNames == {XmlLang, Nm(<<>>, <<"l","a","n","g">>)}   \* a plain lang attribute (the XHTML idiom lang="en" xml:lang="en") is not xml:lang
 L_AttrValues == {<<"e","n">>, <<"E","N","-","u","s">>, <<"f","r">>, <<>>}
 L_Texts == {<<"t">>}
 L_Comments == {<<"c">>}
@@ -32,7 +32,10 @@ Seq2Set(s) == {s[i] : i \in 1..Len(s)}
 \* binding environments: every map from a subset of {p, q} to {U1, U2} (aliases, rebinding, unbound)
 \* (the last maps bind prefixes that spell axis names / node types: 'descendant:attribute' is an ordinary QName)
 NsMaps == << <<>>, [p |-> U1], [p |-> U2], [q |-> U1], [p |-> U1, q |-> U1], [p |-> U1, q |-> U2], [p |-> U2, q |-> U1],
-             [p |-> U1, descendant |-> U1, attribute |-> U2, text |-> U2], [p |-> U2, descendant |-> U2, self |-> U1] >>
+             [p |-> U1, descendant |-> U1, attribute |-> U2, text |-> U2], [p |-> U2, descendant |-> U2, self |-> U1],
+             \* a binding for the EMPTY prefix (people add one hoping for a default namespace): XPath 1.0 has no default
+             \* namespace for names in expressions - unprefixed name tests, variables and functions stay in no namespace
+             [x \in {"", "p"} |-> U1], [x \in {"", "p", "q"} |-> IF x = "" THEN U2 ELSE U1] >>
 VarsOf(ns) == << [sp |-> <<>>, lo |-> <<"v">>, val |-> StrV(<<"a">>)],
                  [sp |-> U1, lo |-> <<"v">>, val |-> NumV(NInt(2))],
                  [sp |-> U2, lo |-> <<"v">>, val |-> BoolV(TRUE)],
@@ -42,7 +45,10 @@ Funcs == << [sp |-> U1, lo |-> <<"f">>, kind |-> "arg", i |-> 2],
             [sp |-> <<>>, lo |-> <<"c","o","u","n","t">>, kind |-> "const", val |-> StrV(<<"u","s","e","r">>)],   \* shadows a builtin
             [sp |-> <<>>, lo |-> <<"n","a","r","g","s">>, kind |-> "nargs"],
             [sp |-> U1, lo |-> <<"p","o","s">>, kind |-> "ctxpos"],
-            [sp |-> <<>>, lo |-> <<"h","e","r","e">>, kind |-> "ctxnode"] >>
+            [sp |-> <<>>, lo |-> <<"h","e","r","e">>, kind |-> "ctxnode"],
+            \* ... and the context functions can be shadowed like any other builtin
+            [sp |-> <<>>, lo |-> <<"l","a","s","t">>, kind |-> "const", val |-> StrV(<<"m","i","n","e">>)],
+            [sp |-> <<>>, lo |-> <<"p","o","s","i","t","i","o","n">>, kind |-> "const", val |-> NumV(NInt(1))] >>
 EnvOf(i) == [ns |-> NsMaps[i], vars |-> VarsOf(NsMaps[i]), funcs |-> Funcs]
 All(t) == Abs(<<DoS, Step("child", t)>>)
 AllAttr(t) == Abs(<<DoS, Step("attribute", t)>>)
@@ -62,7 +68,9 @@ PoolC11 == << All(T_name("p", <<"a">>)), All(T_name("q", <<"a">>)), All(T_name("
               Abs(<<DoS, StepP("child", T_any, <<Call(<<"h","e","r","e">>, <<>>)>>)>>),
               Call(<<"c","o","u","n","t">>, <<Call(<<"h","e","r","e">>, <<>>)>>),
               Abs(<<DoS, Step("child", T_any), FnStep(Call(<<"h","e","r","e">>, <<>>))>>),
-              Bin("eq", Var("p", <<"v">>), IntE(2)), Call(<<"s","t","r","i","n","g">>, <<Var("", <<"v">>)>>) >>
+              Bin("eq", Var("p", <<"v">>), IntE(2)), Call(<<"s","t","r","i","n","g">>, <<Var("", <<"v">>)>>),
+              Call(<<"l","a","s","t">>, <<>>), Abs(<<DoS, StepP("child", T_any, <<Call(<<"p","o","s","i","t","i","o","n">>, <<>>)>>)>>),
+              Abs(<<DoS, StepP("child", T_any, <<Bin("eq", Call(<<"l","a","s","t">>, <<>>), Lit(<<"m","i","n","e">>))>>)>>) >>
 \* invariance under consistent renaming of the query's prefixes: swapping the roles of p and q in
 \* the expression and in the bindings does not change the value
 RECURSIVE SwapE(_)
